@@ -197,8 +197,15 @@ impl ScannerConfig {
         // Add the error token as last terminal of the mode, unless allow_unmatched is set
         if !self.allow_unmatched {
             let error_index = terminal_names.len() - 1;
+            // `.` does not match a line break. Without automatic newline handling a line break that no
+            // terminal of this mode matches has to be caught by the error token, too.
+            let error_pattern = if self.auto_newline {
+                ERROR_TOKEN.to_owned()
+            } else {
+                format!(r"{ERROR_TOKEN}|\r\n|\r|\n")
+            };
             terminal_mappings.push((
-                ERROR_TOKEN.to_owned(),
+                error_pattern,
                 error_index as TerminalIndex,
                 None,
                 terminal_names[error_index].clone(),
